@@ -51,9 +51,12 @@ func (consumersSuite) Gen(r *rand.Rand, i int) Case {
 			fb := pick(r, "none", "nil", fmt.Sprintf("e%d", id))
 			id++
 			c.Ops = append(c.Ops, fmt.Sprintf("exec ctx=%s run=%s radv=%d rcancel=0 fb=%s fadv=1 fcancel=0 ans=0000", ctx, run, radv, fb))
-		case x < 66:
+		case x < 64:
 			c.Ops = append(c.Ops, pick(r, "open", "close"))
 			c.Tags = append(c.Tags, "short-circuit-phase")
+		case x < 66:
+			c.Ops = append(c.Ops, fmt.Sprintf("setcfg mc=%d partial=%d", []int64{-1, 0, 10}[r.Intn(3)], r.Intn(2)), "var")
+			c.Tags = append(c.Tags, "reconfig")
 		case x < 78:
 			c.Ops = append(c.Ops, fmt.Sprintf("tick %d", []int64{1, width - 1, width, dur - 1, dur, 3 * dur}[r.Intn(6)]))
 			c.Tags = append(c.Tags, "tick")
@@ -120,6 +123,7 @@ func (consumersSuite) Run(h map[string]string, ops []string) []string {
 		}
 	}
 	out := make([]string, len(ops))
+	lastPartial := false // the stored config has no TimeKeeper: diagnostics then read the wall clock, not the substitute one
 	for i, op := range ops {
 		out[i] = func() (res string) {
 			defer func() {
@@ -130,6 +134,9 @@ func (consumersSuite) Run(h map[string]string, ops []string) []string {
 			f := strings.Fields(op)
 			m := kvs(f[1:])
 			now := clockBase.Add(time.Duration(e.clk.now))
+			if f[0] == "setcfg" {
+				lastPartial = m["partial"] == "1"
+			}
 			switch f[0] {
 			case "exec":
 				line := e.exec(m)
@@ -145,7 +152,23 @@ func (consumersSuite) Run(h map[string]string, ops []string) []string {
 				return fmt.Sprintf("ev=%s open=%s", listOr(e.recs[0].log, ";"), b01(e.c.IsOpen()))
 			case "setcfg":
 				applyCfg(&e.base, m)
-				e.c.SetConfigThreadSafe(e.base)
+				if m["partial"] == "1" {
+					var p circuit.Config // only the retuned settings: no TimeKeeper, factories, collectors
+					p.General.ForceOpen, p.General.ForcedClosed, p.General.Disabled = e.base.General.ForceOpen, e.base.General.ForcedClosed, e.base.General.Disabled
+					p.Execution.Timeout, p.Execution.MaxConcurrentRequests = e.base.Execution.Timeout, e.base.Execution.MaxConcurrentRequests
+					p.Execution.IgnoreInterrupts, p.Execution.IsErrInterrupt = e.base.Execution.IgnoreInterrupts, e.base.Execution.IsErrInterrupt
+					p.Fallback.Disabled, p.Fallback.MaxConcurrentRequests = e.base.Fallback.Disabled, e.base.Fallback.MaxConcurrentRequests
+					e.c.SetConfigThreadSafe(p)
+				} else {
+					e.c.SetConfigThreadSafe(e.base)
+				}
+				return "open=" + b01(e.c.IsOpen())
+			case "var":
+				// every read-side diagnostic: circuit and manager expvar, config copy, gauges
+				_ = e.c.Var().String()
+				_ = mgr.Var().String()
+				_ = e.c.Config()
+				_ = e.c.ConcurrentCommands() + e.c.ConcurrentFallbacks()
 				return "open=" + b01(e.c.IsOpen())
 			case "tick":
 				e.clk.now += atoi(f[1])
@@ -180,6 +203,9 @@ func (consumersSuite) Run(h map[string]string, ops []string) []string {
 				_ = es.Close()
 				if data == nil {
 					return "stream-timeout"
+				}
+				if lastPartial {
+					return "stream-ok" // produced without incident; its time base is the wall clock, so the fields are not compared
 				}
 				var rec map[string]interface{}
 				body := strings.TrimSpace(strings.TrimPrefix(strings.TrimSpace(string(data)), "data:"))
